@@ -1,5 +1,7 @@
 # property id -> (module, class)
 REGISTRY = {
+    "C01": ("simrun", "SimRun"),
+    "C02": ("simrun", "SimRun"),
     "C14": ("envhist", "EnvHist"),
     "C16": ("conshist", "ConsHist"),
     "C36": ("statehist", "StateHist"),
